@@ -19,6 +19,7 @@ import (
 
 	simapp "github.com/provenance-io/provenance/app"
 	markertypes "github.com/provenance-io/provenance/x/marker/types"
+	mdkeeper "github.com/provenance-io/provenance/x/metadata/keeper"
 	mdtypes "github.com/provenance-io/provenance/x/metadata/types"
 )
 
@@ -50,11 +51,21 @@ const (
 	c09Other    = 99
 )
 
-var c09Kinds = []string{"KWrite", "KUpdate", "KMigrate", "KDelete"}
+var c09Kinds = []string{"KWrite", "KUpdate", "KMigrate", "KDelete", "KAddData"}
 var c09KindURL = []string{
 	mdtypes.TypeURLMsgWriteScopeRequest, mdtypes.TypeURLMsgUpdateValueOwnersRequest,
 	mdtypes.TypeURLMsgMigrateValueOwnerRequest, mdtypes.TypeURLMsgDeleteScopeRequest,
+	mdtypes.TypeURLMsgAddScopeDataAccessRequest,
 }
+
+// party roles (PartyType enum values) and the required roles of the two existing scope specifications
+const (
+	c09Owner    = int(mdtypes.PartyType_PARTY_TYPE_OWNER)
+	c09Investor = int(mdtypes.PartyType_PARTY_TYPE_INVESTOR)
+	c09Servicer = int(mdtypes.PartyType_PARTY_TYPE_SERVICER)
+)
+
+var c09SpecRoles = map[int][]int{1: {c09Owner}, 2: {c09Owner, c09Investor}}
 
 type c09Env struct {
 	t     *testing.T
@@ -139,8 +150,12 @@ func c09Setup(t *testing.T) *c09Env {
 		id := mdtypes.ScopeSpecMetadataAddress(uuid.MustParse(fmt.Sprintf("00000000-0000-4000-9000-0000000000%02d", i)))
 		e.specs = append(e.specs, id)
 		if i <= 2 {
+			var roles []mdtypes.PartyType
+			for _, r := range c09SpecRoles[i] {
+				roles = append(roles, mdtypes.PartyType(r))
+			}
 			app.MetadataKeeper.SetScopeSpecification(ctx, mdtypes.ScopeSpecification{SpecificationId: id,
-				OwnerAddresses: []string{e.addrs[1].String()}, PartiesInvolved: []mdtypes.PartyType{mdtypes.PartyType_PARTY_TYPE_OWNER}})
+				OwnerAddresses: []string{e.addrs[1].String()}, PartiesInvolved: roles})
 		}
 	}
 	for _, i := range []int{c09Module, c09Blocked} {
@@ -218,10 +233,138 @@ func (e *c09Env) runMsg(ctx sdk.Context, m sdk.Msg) error {
 	})
 }
 
+type c09Party struct {
+	a, role int
+	opt     bool
+}
+
 type c09Scope struct {
-	owners []int
-	spec   int // 1..3
-	data   int
+	parties []c09Party
+	spec    int // 1..3
+	data    []int
+	rollup  bool
+}
+
+func (sc *c09Scope) clone() c09Scope {
+	return c09Scope{parties: append([]c09Party{}, sc.parties...), spec: sc.spec, data: append([]int{}, sc.data...), rollup: sc.rollup}
+}
+
+func c09PartiesTerm(ps []c09Party) string {
+	out := make([]string, len(ps))
+	for i, p := range ps {
+		out[i] = fmt.Sprintf("(%s, %s, %s)", c09N(p.a), c09N(p.role), coqBool(p.opt))
+	}
+	return coqList(out)
+}
+
+// need: the addresses whose signature (or authz grant) the party rules ask for on a change of the
+// scope: all parties (no rollup), or the required parties plus one party per role the given
+// specification requires (rollup).
+func (sc *c09Scope) need(spec int) []int {
+	var out []int
+	seen := map[int]bool{}
+	add := func(a int) {
+		if !seen[a] {
+			seen[a] = true
+			out = append(out, a)
+		}
+	}
+	if !sc.rollup {
+		for _, p := range sc.parties {
+			add(p.a)
+		}
+		return out
+	}
+	used := make([]bool, len(sc.parties))
+	for _, p := range sc.parties {
+		if !p.opt {
+			add(p.a)
+		}
+	}
+	for _, role := range c09SpecRoles[spec] {
+		found := false
+		for i, p := range sc.parties {
+			if !used[i] && p.role == role && seen[p.a] {
+				used[i], found = true, true
+				break
+			}
+		}
+		if !found {
+			for i, p := range sc.parties {
+				if !used[i] && p.role == role {
+					used[i] = true
+					add(p.a)
+					break
+				}
+			}
+		}
+	}
+	return out
+}
+
+func (h *c09Hist) mkScope(d int, sc c09Scope, vo int) mdtypes.Scope {
+	e := h.e
+	scope := mdtypes.Scope{ScopeId: h.ids[d], SpecificationId: e.specs[sc.spec-1], RequirePartyRollup: sc.rollup}
+	for _, p := range sc.parties {
+		scope.Owners = append(scope.Owners, mdtypes.Party{Address: e.addrs[p.a].String(), Role: mdtypes.PartyType(p.role), Optional: p.opt})
+	}
+	for _, x := range sc.data {
+		scope.DataAccess = append(scope.DataAccess, addrN(9100+x).String())
+	}
+	if vo >= 0 {
+		scope.ValueOwnerAddress = e.addrs[vo].String()
+	}
+	return scope
+}
+
+type c09Op struct {
+	term, dsc, cls string
+	run            func(sdk.Context) error
+}
+
+func (h *c09Hist) opWrite(cls string, sg []int, d int, sc c09Scope, vo int) c09Op {
+	msg := &mdtypes.MsgWriteScopeRequest{Scope: h.mkScope(d, sc, vo), Signers: h.strs(sg)}
+	return c09Op{cls: cls,
+		term: fmt.Sprintf("OWrite %s %s %s %s %s %s %s", c09Ns(sg), c09N(d+1), c09PartiesTerm(sc.parties), c09N(sc.spec), c09Ns(sc.data), coqBool(sc.rollup), c09OptN(vo)),
+		dsc:  fmt.Sprintf("%s scope %d parties %v spec %d data %v rollup %v vo %d signers %v", cls, d+1, sc.parties, sc.spec, sc.data, sc.rollup, vo, sg),
+		run: func(c sdk.Context) error {
+			err := h.e.runMsg(c, msg)
+			if err == nil {
+				cp := sc.clone()
+				h.scopes[d] = &cp
+			}
+			return err
+		}}
+}
+
+func (h *c09Hist) opUpdate(sg []int, ds []int, to int) c09Op {
+	ids := make([]mdtypes.MetadataAddress, len(ds))
+	dn := make([]int, len(ds))
+	for i, d := range ds {
+		ids[i] = h.ids[d]
+		dn[i] = d + 1
+	}
+	msg := &mdtypes.MsgUpdateValueOwnersRequest{ScopeIds: ids, ValueOwnerAddress: h.e.addrs[to].String(), Signers: h.strs(sg)}
+	return c09Op{cls: "update", term: fmt.Sprintf("OUpdate %s %s %s", c09Ns(sg), c09Ns(dn), c09N(to)),
+		dsc: fmt.Sprintf("update scopes %v to %d signers %v", dn, to, sg),
+		run: func(c sdk.Context) error { return h.e.runMsg(c, msg) }}
+}
+
+func (h *c09Hist) opAddData(sg []int, d int, da []int) c09Op {
+	var strs []string
+	for _, x := range da {
+		strs = append(strs, addrN(9100+x).String())
+	}
+	msg := &mdtypes.MsgAddScopeDataAccessRequest{ScopeId: h.ids[d], DataAccess: strs, Signers: h.strs(sg)}
+	return c09Op{cls: "add-data-access", term: fmt.Sprintf("OAddData %s %s %s", c09Ns(sg), c09N(d+1), c09Ns(da)),
+		dsc: fmt.Sprintf("add data access %v to scope %d signers %v", da, d+1, sg),
+		run: func(c sdk.Context) error {
+			err := h.e.runMsg(c, msg)
+			if err == nil && h.scopes[d] != nil {
+				h.scopes[d].data = append(h.scopes[d].data, da...)
+			}
+			return err
+		}}
 }
 
 type c09Hist struct {
@@ -371,12 +514,12 @@ func (h *c09Hist) goodSigners(kind int, holders []int, to int, owners []int) []i
 		sg = append(sg, a)
 	}
 	viaGrant := func(a int) bool {
-		if h.grants[fmt.Sprintf("%d/%d/%d", a, c09Grantee, kind)] && h.r.Intn(3) > 0 {
+		if (h.grants[fmt.Sprintf("%d/%d/%d", a, c09Grantee, kind)] || (kind == 4 && h.grants[fmt.Sprintf("%d/%d/0", a, c09Grantee)])) && h.r.Intn(3) > 0 {
 			add(c09Grantee)
 			return true
 		}
 		// a grant for ANOTHER message type must not help: try it now and then
-		for k := 0; k < 4; k++ {
+		for k := 0; k < 5; k++ {
 			if k != kind && h.grants[fmt.Sprintf("%d/%d/%d", a, c09Grantee, k)] && h.r.Intn(3) == 0 {
 				add(c09Grantee)
 				return true
@@ -428,7 +571,24 @@ func (h *c09Hist) randSigners() []int {
 
 // signers: mostly the right ones, sometimes with one dropped or a stranger instead, sometimes random.
 func (h *c09Hist) signers(kind int, holders []int, to int, owners []int) []int {
-	switch x := h.r.Intn(12); {
+	standIn := func() []int {
+		sg := h.goodSigners(kind, nil, to, owners)
+		for _, a := range sg {
+			if a == c09Grantee {
+				return sg
+			}
+		}
+		return append(sg, c09Grantee)
+	}
+	for _, a := range holders {
+		for k := 0; k < 5; k++ {
+			// a value owner that granted the grantee SOMETHING: the grantee tries to act for it
+			if h.grants[fmt.Sprintf("%d/%d/%d", a, c09Grantee, k)] && h.r.Intn(8) == 0 {
+				return standIn()
+			}
+		}
+	}
+	switch x := h.r.Intn(13); {
 	case x < 6:
 		sg := h.goodSigners(kind, holders, to, owners)
 		if h.r.Intn(6) == 0 {
@@ -442,7 +602,9 @@ func (h *c09Hist) signers(kind int, holders []int, to int, owners []int) []int {
 		return h.goodSigners(kind, nil, to, owners)
 	case x < 8: // the value owner's side only
 		return h.goodSigners(kind, holders, to, nil)
-	case x < 10:
+	case x < 9: // the grantee stands in for the value owner, whatever its grants are for
+		return standIn()
+	case x < 11:
 		sg := h.goodSigners(kind, holders, to, owners)
 		i := h.r.Intn(len(sg))
 		if h.r.Intn(2) == 0 {
@@ -467,7 +629,420 @@ func (h *c09Hist) existingIdx() []int {
 	return out
 }
 
-func c09History(e *c09Env, r *rand.Rand, w *CaseWriter, hi int) {
+// partyPool: accounts that appear as scope parties.
+var c09PartyPool = []int{1, 2, 3, 1, 2, 3, c09Grantee, c09Admin}
+
+func (h *c09Hist) newScope() c09Scope {
+	r := h.r
+	sc := c09Scope{rollup: r.Intn(2) == 0, spec: 1 + r.Intn(2)}
+	if r.Intn(15) == 0 {
+		sc.spec = 3
+	}
+	has := func(a, role int) bool {
+		for _, p := range sc.parties {
+			if p.a == a && p.role == role {
+				return true
+			}
+		}
+		return false
+	}
+	add := func(a, role int, opt bool) {
+		if !has(a, role) {
+			sc.parties = append(sc.parties, c09Party{a, role, opt && sc.rollup})
+		}
+	}
+	add(1+r.Intn(3), c09Owner, r.Intn(6) == 0)
+	if r.Intn(4) == 0 {
+		add(1+r.Intn(3), c09Owner, r.Intn(2) == 0)
+	}
+	if sc.spec == 2 || r.Intn(2) == 0 {
+		add(c09PartyPool[r.Intn(len(c09PartyPool))], c09Investor, r.Intn(3) > 0)
+	}
+	if r.Intn(3) == 0 {
+		add(c09PartyPool[r.Intn(len(c09PartyPool))], c09Servicer, r.Intn(2) == 0)
+	}
+	if r.Intn(5) == 0 { // one account in two roles
+		add(sc.parties[0].a, c09Servicer, r.Intn(2) == 0)
+	}
+	for x := 1; x <= 3; x++ {
+		if r.Intn(4) == 0 {
+			sc.data = append(sc.data, x)
+		}
+	}
+	switch r.Intn(30) {
+	case 0:
+		sc.parties = nil
+	case 1: // an optional party without rollup
+		if !sc.rollup {
+			sc.parties[0].opt = true
+		}
+	case 2: // a role the specification requires is missing
+		sc.parties = sc.parties[1:]
+		if len(sc.parties) == 0 {
+			sc.parties = []c09Party{{1 + r.Intn(3), c09Servicer, false}}
+		}
+	case 3: // a contract as owner
+		sc.parties = append(sc.parties, c09Party{c09Wasm, c09Owner, false})
+	}
+	return sc
+}
+
+// pickVO: (a) an account that is not a party, (b) a required party, (c) an optional party.
+func (h *c09Hist) pickVO(sc *c09Scope) (int, string) {
+	var req, opt []int
+	for _, p := range sc.parties {
+		if p.opt {
+			opt = append(opt, p.a)
+		} else {
+			req = append(req, p.a)
+		}
+	}
+	switch x := h.r.Intn(10); {
+	case x < 4 && len(opt) > 0:
+		return opt[h.r.Intn(len(opt))], "vo-optional-party"
+	case x < 7 && len(req) > 0:
+		return req[h.r.Intn(len(req))], "vo-required-party"
+	default:
+		return h.anyAcct(), "vo-any"
+	}
+}
+
+func (h *c09Hist) voClass(d, a int) string {
+	sc := h.scopes[d]
+	if sc == nil || a < 0 {
+		return "n/a"
+	}
+	cls := "not-a-party"
+	for _, p := range sc.parties {
+		if p.a == a {
+			if !p.opt {
+				return "required-party"
+			}
+			cls = "optional-party"
+		}
+	}
+	return cls
+}
+
+// changeOther changes something other than the value owner.
+func (h *c09Hist) changeOther(cur *c09Scope) c09Scope {
+	r := h.r
+	sc := cur.clone()
+	switch r.Intn(6) {
+	case 0, 1: // data access
+		x := 1 + r.Intn(3)
+		kept := sc.data[:0:0]
+		found := false
+		for _, y := range sc.data {
+			if y == x {
+				found = true
+			} else {
+				kept = append(kept, y)
+			}
+		}
+		if !found {
+			kept = append(kept, x)
+		}
+		sc.data = kept
+	case 2: // add or drop a party
+		a, role := c09PartyPool[r.Intn(len(c09PartyPool))], []int{c09Owner, c09Investor, c09Servicer}[r.Intn(3)]
+		idx := -1
+		for i, p := range sc.parties {
+			if p.a == a && p.role == role {
+				idx = i
+			}
+		}
+		if idx < 0 {
+			sc.parties = append(sc.parties, c09Party{a, role, sc.rollup && r.Intn(2) == 0})
+		} else if len(sc.parties) > 1 {
+			sc.parties = append(sc.parties[:idx], sc.parties[idx+1:]...)
+		} else {
+			sc.data = append(sc.data, 1+r.Intn(3))
+		}
+	case 3: // flip an optional flag
+		if sc.rollup {
+			i := r.Intn(len(sc.parties))
+			sc.parties[i].opt = !sc.parties[i].opt
+		} else {
+			sc.data = append(sc.data, 1+r.Intn(3))
+		}
+	case 4: // the other specification
+		sc.spec = 3 - cur.spec
+		if r.Intn(6) == 0 {
+			sc.spec = 3
+		}
+	default: // switch party rollup
+		sc.rollup = !sc.rollup
+		if !sc.rollup {
+			for i := range sc.parties {
+				sc.parties[i].opt = false
+			}
+		}
+	}
+	return sc
+}
+
+func (h *c09Hist) genOp(nIds int) c09Op {
+	e, r := h.e, h.r
+	x := r.Intn(100)
+	existing := h.existingIdx()
+	switch {
+	case x < 30 || len(existing) == 0: // write scope
+		d := r.Intn(nIds)
+		if len(existing) > 0 && len(existing) < nIds && r.Intn(3) == 0 {
+			for _, c := range r.Perm(nIds) {
+				if h.scopes[c] == nil {
+					d = c
+					break
+				}
+			}
+		}
+		cur := h.scopes[d]
+		hold := h.holder(d)
+		if cur == nil {
+			sc := h.newScope()
+			vo, vcls := -1, "no-vo"
+			if r.Intn(5) > 0 && len(sc.parties) > 0 {
+				vo, vcls = h.pickVO(&sc)
+			}
+			return h.opWrite("write-new "+vcls, h.signers(0, nil, vo, nil), d, sc, vo)
+		}
+		sc := cur.clone()
+		vo := -1
+		cls := ""
+		var need []int
+		switch v := r.Intn(10); {
+		case v < 4:
+			cls = "write-vo-only"
+			vo, _ = h.pickVO(cur)
+			if hold < 0 || cur.rollup {
+				need = cur.need(cur.spec)
+			}
+		case v < 6:
+			cls = "write-vo-and-other"
+			vo, _ = h.pickVO(cur)
+			sc = h.changeOther(cur)
+			need = cur.need(sc.spec)
+		case v < 8:
+			cls = "write-other"
+			sc = h.changeOther(cur)
+			need = cur.need(sc.spec)
+		case v < 9:
+			cls = "write-same-vo-other"
+			vo = hold
+			sc = h.changeOther(cur)
+			need = cur.need(sc.spec)
+		default:
+			cls = "write-identical"
+			vo = hold
+			if r.Intn(2) == 0 {
+				vo = -1
+			}
+			if len(sc.parties) > 1 {
+				sc.parties[0], sc.parties[1] = sc.parties[1], sc.parties[0]
+			}
+			if cur.rollup {
+				need = cur.need(cur.spec)
+			}
+		}
+		var holders []int
+		if vo >= 0 && hold >= 0 && hold != vo {
+			holders = []int{hold}
+		}
+		sg := h.signers(0, holders, vo, need)
+		if len(holders) > 0 && len(need) > 0 && r.Intn(3) == 0 {
+			// everybody the party rules ask for signs, the value owner is not asked
+			sg = h.goodSigners(0, nil, vo, need)
+		}
+		return h.opWrite(cls, sg, d, sc, vo)
+	case x < 48: // update value owners
+		var ds []int
+		for _, d := range r.Perm(nIds) {
+			if h.holder(d) >= 0 && (len(ds) == 0 || r.Intn(2) == 0) {
+				ds = append(ds, d)
+			}
+		}
+		if len(ds) == 0 || r.Intn(12) == 0 {
+			ds = append(ds, r.Intn(nIds)) // a scope without token, or a duplicate
+		}
+		if r.Intn(40) == 0 {
+			ds = nil
+		}
+		to := h.anyAcct()
+		var holders []int
+		for _, d := range ds {
+			holders = append(holders, h.holder(d))
+		}
+		if r.Intn(3) > 0 {
+			for tries := 0; tries < 5; tries++ {
+				clash := false
+				for _, a := range holders {
+					if a == to {
+						clash = true
+					}
+				}
+				if !clash {
+					break
+				}
+				to = h.anyAcct()
+			}
+		}
+		sg := h.signers(1, holders, to, nil)
+		if len(ds) > 0 && h.scopes[ds[0]] != nil && r.Intn(6) == 0 {
+			// the scope's parties try to move the token without its holder
+			sg = h.goodSigners(1, nil, to, h.scopes[ds[0]].need(h.scopes[ds[0]].spec))
+		}
+		return h.opUpdate(sg, ds, to)
+	case x < 57: // migrate
+		from := h.anyAcct()
+		if r.Intn(4) > 0 {
+			for _, d := range r.Perm(nIds) {
+				if a := h.holder(d); a >= 0 {
+					from = a
+					break
+				}
+			}
+		}
+		to := h.anyAcct()
+		sg := h.signers(2, []int{from}, to, nil)
+		msg := &mdtypes.MsgMigrateValueOwnerRequest{Existing: e.addrs[from].String(), Proposed: e.addrs[to].String(), Signers: h.strs(sg)}
+		return c09Op{cls: "migrate", term: fmt.Sprintf("OMigrate %s %s %s", c09Ns(sg), c09N(from), c09N(to)),
+			dsc: fmt.Sprintf("migrate %d to %d signers %v", from, to, sg),
+			run: func(c sdk.Context) error { return e.runMsg(c, msg) }}
+	case x < 67: // delete
+		d := r.Intn(nIds)
+		if len(existing) > 0 && r.Intn(8) > 0 {
+			d = existing[r.Intn(len(existing))]
+			if r.Intn(2) == 0 {
+				// prefer a scope whose value owner is an optional party
+				for _, c := range existing {
+					if h.voClass(c, h.holder(c)) == "optional-party" {
+						d = c
+					}
+				}
+			}
+		}
+		var need []int
+		if sc := h.scopes[d]; sc != nil {
+			need = sc.need(sc.spec)
+		}
+		hold := h.holder(d)
+		sg := h.signers(3, []int{hold}, -1, need)
+		_, isMk := h.mks[hold]
+		if h.voClass(d, hold) == "optional-party" && len(need) > 0 && r.Intn(2) == 0 {
+			sg = h.goodSigners(3, nil, -1, need)
+		} else if (isMk || h.voClass(d, hold) == "not-a-party") && len(need) > 0 && r.Intn(3) == 0 {
+			// the parties the rules ask for delete the scope; its value owner (a marker, an optional
+			// party that does not sign, an outsider) is not asked
+			sg = h.goodSigners(3, nil, -1, need)
+		}
+		msg := &mdtypes.MsgDeleteScopeRequest{ScopeId: h.ids[d], Signers: h.strs(sg)}
+		return c09Op{cls: "delete vo-" + h.voClass(d, hold), term: fmt.Sprintf("ODelete %s %s", c09Ns(sg), c09N(d+1)),
+			dsc: fmt.Sprintf("delete scope %d signers %v", d+1, sg),
+			run: func(c sdk.Context) error {
+				err := e.runMsg(c, msg)
+				if err == nil {
+					delete(h.scopes, d)
+				}
+				return err
+			}}
+	case x < 74: // add data access (rewrites the stored scope through SetScope)
+		d := existing[r.Intn(len(existing))]
+		if r.Intn(10) == 0 {
+			d = r.Intn(nIds)
+		}
+		da := []int{1 + r.Intn(3)}
+		if sc := h.scopes[d]; sc != nil && r.Intn(4) > 0 {
+			for x := 1; x <= 4; x++ {
+				used := false
+				for _, y := range sc.data {
+					used = used || y == x
+				}
+				if !used {
+					da = []int{x}
+					break
+				}
+			}
+		}
+		var need []int
+		if sc := h.scopes[d]; sc != nil {
+			need = sc.need(sc.spec)
+		}
+		return h.opAddData(h.signers(4, nil, -1, need), d, da)
+	case x < 86: // plain bank send of the token
+		d := r.Intn(nIds)
+		from := h.holder(d)
+		if from < 0 || r.Intn(5) == 0 {
+			from = h.anyAcct()
+		}
+		to := h.anyAcct()
+		amt := int64(1)
+		if v := r.Intn(20); v == 0 {
+			amt = 2
+		} else if v == 1 {
+			amt = 0
+		}
+		msg := &banktypes.MsgSend{FromAddress: e.addrs[from].String(), ToAddress: e.addrs[to].String(),
+			Amount: sdk.Coins{sdk.Coin{Denom: h.ids[d].Denom(), Amount: sdkmath.NewInt(amt)}}}
+		return c09Op{cls: "send", term: fmt.Sprintf("OSend %s %s %s %s", c09N(from), c09N(to), c09N(d+1), zI64(amt)),
+			dsc: fmt.Sprintf("bank send scope %d token from %d to %d amount %d", d+1, from, to, amt),
+			run: func(c sdk.Context) error { return e.runMsg(c, msg) }}
+	case x < 95: // authz grant / revoke
+		granter := 1 + r.Intn(3)
+		if r.Intn(4) == 0 {
+			// any account that can sign a MsgGrant (markers and module accounts have no key)
+			granter = []int{1, 2, 3, c09Grantee, c09Stranger, c09Admin, c09Wasm}[r.Intn(7)]
+		} else if r.Intn(2) == 0 {
+			if a := h.holder(r.Intn(nIds)); a > 0 && a != c09Mk1 && a != c09Mk2 && a != c09Blocked && a != c09Other {
+				granter = a // a current value owner
+			}
+		}
+		grantee := c09Grantee
+		if r.Intn(5) == 0 {
+			grantee = c09Wasm
+		}
+		k := []int{0, 0, 1, 1, 2, 3, 3, 4}[r.Intn(8)]
+		key := fmt.Sprintf("%d/%d/%d", granter, grantee, k)
+		if h.grants[key] && r.Intn(2) == 0 {
+			return c09Op{cls: "revoke", term: fmt.Sprintf("ORevoke %s %s %s", c09N(granter), c09N(grantee), c09Kinds[k]), dsc: "revoke " + key,
+				run: func(c sdk.Context) error {
+					err := e.app.AuthzKeeper.DeleteGrant(c, e.addrs[grantee], e.addrs[granter], c09KindURL[k])
+					if err == nil {
+						delete(h.grants, key)
+					}
+					return err
+				}}
+		}
+		return c09Op{cls: "grant", term: fmt.Sprintf("OGrant %s %s %s", c09N(granter), c09N(grantee), c09Kinds[k]), dsc: "grant " + key,
+			run: func(c sdk.Context) error {
+				err := e.app.AuthzKeeper.SaveGrant(c, e.addrs[grantee], e.addrs[granter], authz.NewGenericAuthorization(c09KindURL[k]), nil)
+				if err == nil {
+					h.grants[key] = true
+				}
+				return err
+			}}
+	default: // marker access administration
+		mi := c09Mk1
+		if r.Intn(2) == 0 {
+			mi = c09Mk2
+		}
+		m := e.randMarker(r, mi == c09Mk2)
+		return c09Op{cls: "set-marker", term: fmt.Sprintf("OSetMarker %s %s", c09N(mi), m.term()),
+			dsc: fmt.Sprintf("marker %d access withdraw %v deposit %v", mi, m.withdraw, m.deposit),
+			run: func(c sdk.Context) error {
+				e.setMarker(c, mi, m)
+				h.mks[mi] = m
+				return nil
+			}}
+	}
+}
+
+// c09History runs one history.  legacy > 0: scope 1 is first created as PRE-MIGRATION state (the
+// value owner stored inside the scope record, through Keeper.V3WriteNewScope) and moved to the
+// bank by Migrator.Migrate3To4, which leaves the old value_owner_address in the stored record; the
+// history then starts with a scripted value-owner update by the holder followed by an
+// AddScopeDataAccess by the owner (an endpoint that rewrites the STORED scope through SetScope).
+func c09History(e *c09Env, r *rand.Rand, w *CaseWriter, hi int, legacy int) {
 	ctx, _ := e.base.CacheContext()
 	h := &c09Hist{e: e, r: r, ctx: ctx, scopes: map[int]*c09Scope{}, grants: map[string]bool{}, mks: map[int]c09Marker{}}
 	nIds := 2 + r.Intn(3)
@@ -478,307 +1053,47 @@ func c09History(e *c09Env, r *rand.Rand, w *CaseWriter, hi int) {
 	h.mks[c09Mk2] = e.randMarker(r, true)
 	e.setMarker(ctx, c09Mk1, h.mks[c09Mk1])
 	e.setMarker(ctx, c09Mk2, h.mks[c09Mk2])
-	start := fmt.Sprintf("(init [1%%N; 2%%N] [(%s, %s); (%s, %s)] [%s] [%s; %s])",
+	start := fmt.Sprintf("(init [(1%%N, %s); (2%%N, %s)] [(%s, %s); (%s, %s)] [%s] [%s; %s])",
+		c09Ns(c09SpecRoles[1]), c09Ns(c09SpecRoles[2]),
 		c09N(c09Mk1), h.mks[c09Mk1].term(), c09N(c09Mk2), h.mks[c09Mk2].term(), c09N(c09Wasm), c09N(c09Module), c09N(c09Blocked))
+	var queue []c09Op
+	if legacy > 0 {
+		owner, vo, next := 1+legacy%3, 1+(legacy+1)%3, []int{c09Stranger, c09Grantee, 1 + (legacy+2)%3}[legacy%3]
+		sc := c09Scope{parties: []c09Party{{owner, c09Owner, false}}, spec: 1}
+		if err := e.app.MetadataKeeper.V3WriteNewScope(ctx, h.mkScope(0, sc, vo)); err != nil {
+			e.t.Fatalf("legacy scope: %v", err)
+		}
+		if err := mdkeeper.NewMigrator(e.app.MetadataKeeper).Migrate3To4(ctx); err != nil {
+			e.t.Fatalf("migrate 3 to 4: %v", err)
+		}
+		h.scopes[0] = &sc
+		// the same state in the model: the scope written with that value owner
+		start = fmt.Sprintf("(run %s [OWrite %s 1%%N %s 1%%N [] false %s])", start, c09Ns([]int{owner}), c09PartiesTerm(sc.parties), c09OptN(vo))
+		queue = append(queue, h.opUpdate([]int{vo}, []int{0}, next), h.opAddData([]int{owner}, 0, []int{1}))
+		w.Count("legacy histories")
+	}
 	obs0 := h.observe(true)
 
 	var steps, descs []string
 	n := 10 + r.Intn(21)
 	accepted, changed := 0, 0
 	for s := 0; s < n; s++ {
-		var term, dsc, cls string
-		var run func(sdk.Context) error
-		x := r.Intn(100)
-		existing := h.existingIdx()
-		switch {
-		case x < 32 || len(existing) == 0: // write scope
-			cls = "write"
-			d := r.Intn(nIds)
-			if len(existing) > 0 && len(existing) < nIds && r.Intn(3) == 0 {
-				// prefer creating a scope that does not exist yet
-				for _, c := range r.Perm(nIds) {
-					if h.scopes[c] == nil {
-						d = c
-						break
-					}
-				}
-			}
-			cur := h.scopes[d]
-			var sc c09Scope
-			vo := -1
-			hold := h.holder(d)
-			var needOwners []int
-			if cur == nil {
-				cls = "write-new"
-				for _, i := range r.Perm(3) {
-					if len(sc.owners) == 0 || r.Intn(3) == 0 {
-						sc.owners = append(sc.owners, i+1)
-					}
-				}
-				sc.spec = 1 + r.Intn(2)
-				if r.Intn(15) == 0 {
-					sc.spec = 3
-				}
-				sc.data = r.Intn(3)
-				if r.Intn(4) > 0 {
-					vo = h.anyAcct()
-				}
-				if r.Intn(25) == 0 {
-					sc.owners = nil
-				}
-			} else {
-				sc = c09Scope{owners: append([]int{}, cur.owners...), spec: cur.spec, data: cur.data}
-				other := func() {
-					needOwners = cur.owners
-					switch r.Intn(3) {
-					case 0:
-						sc.data = (cur.data + 1 + r.Intn(2)) % 3
-					case 1:
-						c := 1 + r.Intn(3)
-						found := false
-						for _, o := range sc.owners {
-							if o == c {
-								found = true
-							}
-						}
-						if !found {
-							sc.owners = append(sc.owners, c)
-						} else if len(sc.owners) > 1 {
-							sc.owners = sc.owners[1:]
-						} else {
-							sc.data = (cur.data + 1) % 3
-						}
-					default:
-						sc.spec = 3 - cur.spec
-						if r.Intn(6) == 0 {
-							sc.spec = 3
-						}
-					}
-				}
-				switch v := r.Intn(10); {
-				case v < 4: // only the value owner
-					cls = "write-vo-only"
-					vo = h.anyAcct()
-					if hold < 0 {
-						needOwners = cur.owners
-					}
-				case v < 6: // value owner and something else
-					cls = "write-vo-and-other"
-					vo = h.anyAcct()
-					other()
-				case v < 8: // something else, no value owner field
-					cls = "write-other"
-					other()
-				case v < 9: // same value owner in the field, something else
-					cls = "write-same-vo-other"
-					vo = hold
-					other()
-				default: // reorder owners / identical rewrite
-					cls = "write-identical"
-					vo = hold
-					if r.Intn(2) == 0 {
-						vo = -1
-					}
-					if len(sc.owners) > 1 {
-						sc.owners[0], sc.owners[1] = sc.owners[1], sc.owners[0]
-					}
-				}
-			}
-			var holders []int
-			if vo >= 0 && hold >= 0 && hold != vo {
-				holders = []int{hold}
-			}
-			sg := h.signers(0, holders, vo, needOwners)
-			if cls == "write-vo-and-other" && r.Intn(3) == 0 {
-				// all owners sign for the other changes, the value owner is not asked
-				sg = h.goodSigners(0, nil, vo, needOwners)
-			}
-			scope := mdtypes.Scope{ScopeId: h.ids[d], SpecificationId: e.specs[sc.spec-1]}
-			for _, o := range sc.owners {
-				scope.Owners = append(scope.Owners, mdtypes.Party{Address: e.addrs[o].String(), Role: mdtypes.PartyType_PARTY_TYPE_OWNER})
-			}
-			if sc.data > 0 {
-				scope.DataAccess = []string{addrN(9100 + sc.data).String()}
-			}
-			if vo >= 0 {
-				scope.ValueOwnerAddress = e.addrs[vo].String()
-			}
-			msg := &mdtypes.MsgWriteScopeRequest{Scope: scope, Signers: h.strs(sg)}
-			scCopy := sc
-			run = func(c sdk.Context) error {
-				err := e.runMsg(c, msg)
-				if err == nil {
-					h.scopes[d] = &scCopy
-				}
-				return err
-			}
-			term = fmt.Sprintf("OWrite %s %s %s %s %s %s", c09Ns(sg), c09N(d+1), c09Ns(sc.owners), c09N(sc.spec), c09N(sc.data), c09OptN(vo))
-			dsc = fmt.Sprintf("%s scope %d owners %v spec %d data %d vo %d signers %v", cls, d+1, sc.owners, sc.spec, sc.data, vo, sg)
-		case x < 52: // update value owners
-			cls = "update"
-			var ds []int
-			for _, d := range r.Perm(nIds) {
-				if h.holder(d) >= 0 && (len(ds) == 0 || r.Intn(2) == 0) {
-					ds = append(ds, d)
-				}
-			}
-			if len(ds) == 0 || r.Intn(12) == 0 {
-				ds = append(ds, r.Intn(nIds)) // a scope without token, or a duplicate
-			}
-			if r.Intn(40) == 0 {
-				ds = nil
-			}
-			to := h.anyAcct()
-			var holders []int
-			for _, d := range ds {
-				holders = append(holders, h.holder(d))
-			}
-			if r.Intn(3) > 0 {
-				for tries := 0; tries < 5; tries++ {
-					clash := false
-					for _, a := range holders {
-						if a == to {
-							clash = true
-						}
-					}
-					if !clash {
-						break
-					}
-					to = h.anyAcct()
-				}
-			}
-			sg := h.signers(1, holders, to, nil)
-			ids := make([]mdtypes.MetadataAddress, len(ds))
-			dn := make([]int, len(ds))
-			for i, d := range ds {
-				ids[i] = h.ids[d]
-				dn[i] = d + 1
-			}
-			msg := &mdtypes.MsgUpdateValueOwnersRequest{ScopeIds: ids, ValueOwnerAddress: e.addrs[to].String(), Signers: h.strs(sg)}
-			run = func(c sdk.Context) error { return e.runMsg(c, msg) }
-			term = fmt.Sprintf("OUpdate %s %s %s", c09Ns(sg), c09Ns(dn), c09N(to))
-			dsc = fmt.Sprintf("update scopes %v to %d signers %v", dn, to, sg)
-		case x < 62: // migrate
-			cls = "migrate"
-			from := h.anyAcct()
-			if r.Intn(4) > 0 {
-				for _, d := range r.Perm(nIds) {
-					if a := h.holder(d); a >= 0 {
-						from = a
-						break
-					}
-				}
-			}
-			to := h.anyAcct()
-			sg := h.signers(2, []int{from}, to, nil)
-			msg := &mdtypes.MsgMigrateValueOwnerRequest{Existing: e.addrs[from].String(), Proposed: e.addrs[to].String(), Signers: h.strs(sg)}
-			run = func(c sdk.Context) error { return e.runMsg(c, msg) }
-			term = fmt.Sprintf("OMigrate %s %s %s", c09Ns(sg), c09N(from), c09N(to))
-			dsc = fmt.Sprintf("migrate %d to %d signers %v", from, to, sg)
-		case x < 70: // delete
-			cls = "delete"
-			d := r.Intn(nIds)
-			if len(existing) > 0 && r.Intn(8) > 0 {
-				d = existing[r.Intn(len(existing))]
-			}
-			var owners []int
-			if h.scopes[d] != nil {
-				owners = h.scopes[d].owners
-			}
-			sg := h.signers(3, []int{h.holder(d)}, -1, owners)
-			if _, isMk := h.mks[h.holder(d)]; isMk && len(owners) > 0 && r.Intn(3) == 0 {
-				// the owner parties alone try to delete a scope whose value owner is a marker
-				// (nobody with withdraw access on it is asked)
-				sg = h.goodSigners(3, nil, -1, owners)
-			}
-			msg := &mdtypes.MsgDeleteScopeRequest{ScopeId: h.ids[d], Signers: h.strs(sg)}
-			run = func(c sdk.Context) error {
-				err := e.runMsg(c, msg)
-				if err == nil {
-					delete(h.scopes, d)
-				}
-				return err
-			}
-			term = fmt.Sprintf("ODelete %s %s", c09Ns(sg), c09N(d+1))
-			dsc = fmt.Sprintf("delete scope %d signers %v", d+1, sg)
-		case x < 84: // plain bank send of the token
-			cls = "send"
-			d := r.Intn(nIds)
-			from := h.holder(d)
-			if from < 0 || r.Intn(5) == 0 {
-				from = h.anyAcct()
-			}
-			to := h.anyAcct()
-			amt := int64(1)
-			if v := r.Intn(20); v == 0 {
-				amt = 2
-			} else if v == 1 {
-				amt = 0
-			}
-			msg := &banktypes.MsgSend{FromAddress: e.addrs[from].String(), ToAddress: e.addrs[to].String(),
-				Amount: sdk.Coins{sdk.Coin{Denom: h.ids[d].Denom(), Amount: sdkmath.NewInt(amt)}}}
-			run = func(c sdk.Context) error { return e.runMsg(c, msg) }
-			term = fmt.Sprintf("OSend %s %s %s %s", c09N(from), c09N(to), c09N(d+1), zI64(amt))
-			dsc = fmt.Sprintf("bank send scope %d token from %d to %d amount %d", d+1, from, to, amt)
-		case x < 94: // authz grant / revoke
-			granter := 1 + r.Intn(3)
-			if r.Intn(4) == 0 {
-				// any account that can sign a MsgGrant (markers and module accounts have no key)
-				granter = []int{1, 2, 3, c09Grantee, c09Stranger, c09Admin, c09Wasm}[r.Intn(7)]
-			} else if r.Intn(2) == 0 {
-				if a := h.holder(r.Intn(nIds)); a > 0 && a != c09Mk1 && a != c09Mk2 && a != c09Blocked && a != c09Other {
-					granter = a // a current value owner
-				}
-			}
-			grantee := c09Grantee
-			if r.Intn(5) == 0 {
-				grantee = c09Wasm
-			}
-			k := r.Intn(4)
-			key := fmt.Sprintf("%d/%d/%d", granter, grantee, k)
-			if h.grants[key] && r.Intn(2) == 0 {
-				cls = "revoke"
-				run = func(c sdk.Context) error {
-					err := e.app.AuthzKeeper.DeleteGrant(c, e.addrs[grantee], e.addrs[granter], c09KindURL[k])
-					if err == nil {
-						delete(h.grants, key)
-					}
-					return err
-				}
-				term = fmt.Sprintf("ORevoke %s %s %s", c09N(granter), c09N(grantee), c09Kinds[k])
-			} else {
-				cls = "grant"
-				run = func(c sdk.Context) error {
-					err := e.app.AuthzKeeper.SaveGrant(c, e.addrs[grantee], e.addrs[granter], authz.NewGenericAuthorization(c09KindURL[k]), nil)
-					if err == nil {
-						h.grants[key] = true
-					}
-					return err
-				}
-				term = fmt.Sprintf("OGrant %s %s %s", c09N(granter), c09N(grantee), c09Kinds[k])
-			}
-			dsc = fmt.Sprintf("%s %s", cls, key)
-		default: // marker access administration
-			cls = "set-marker"
-			mi := c09Mk1
-			if r.Intn(2) == 0 {
-				mi = c09Mk2
-			}
-			m := e.randMarker(r, mi == c09Mk2)
-			run = func(c sdk.Context) error {
-				e.setMarker(c, mi, m)
-				h.mks[mi] = m
-				return nil
-			}
-			term = fmt.Sprintf("OSetMarker %s %s", c09N(mi), m.term())
-			dsc = fmt.Sprintf("marker %d access withdraw %v deposit %v", mi, m.withdraw, m.deposit)
+		var op c09Op
+		if len(queue) > 0 {
+			op, queue = queue[0], queue[1:]
+			op.cls = "legacy " + op.cls
+		} else {
+			op = h.genOp(nIds)
 		}
+		cls := op.cls
 		before := make([]int, nIds)
+		bcls := make([]string, nIds)
 		for d := range h.ids {
 			before[d] = h.holder(d)
+			bcls[d] = h.voClass(d, before[d])
 		}
 		cctx, write := h.ctx.CacheContext()
-		err := run(cctx)
+		err := op.run(cctx)
 		if err == nil {
 			write()
 			accepted++
@@ -798,6 +1113,8 @@ func c09History(e *c09Env, r *rand.Rand, w *CaseWriter, hi int) {
 					kindOf = "mint"
 				} else if _, ok := h.mks[before[d]]; ok {
 					kindOf = "from-marker"
+				} else {
+					kindOf = "from-" + bcls[d]
 				}
 				if a < 0 {
 					kindOf += "/burn"
@@ -808,12 +1125,13 @@ func c09History(e *c09Env, r *rand.Rand, w *CaseWriter, hi int) {
 						kindOf += "/to-marker"
 					}
 				}
-				w.Count("holder change " + cls + " " + kindOf)
-				w.Nontrivial(cls + " " + kindOf)
+				base := strings.SplitN(cls, " ", 2)[0]
+				w.Count("holder change " + base + " " + kindOf)
+				w.Nontrivial(base + " " + kindOf)
 			}
 		}
-		steps = append(steps, fmt.Sprintf("(%s, %s)", term, h.observe(err == nil)))
-		descs = append(descs, fmt.Sprintf("%s -> %v", dsc, err == nil))
+		steps = append(steps, fmt.Sprintf("(%s, %s)", op.term, h.observe(err == nil)))
+		descs = append(descs, fmt.Sprintf("%s -> %v", op.dsc, err == nil))
 	}
 	idN := make([]int, nIds)
 	for i := range idN {
@@ -821,7 +1139,7 @@ func c09History(e *c09Env, r *rand.Rand, w *CaseWriter, hi int) {
 	}
 	accN := append(append([]int{}, e.order...), c09Other)
 	term := fmt.Sprintf("CHist %s %s %s %s %s", c09Ns(idN), c09Ns(accN), start, obs0, coqList(steps))
-	w.Add(term, map[string]any{"history": hi, "scopes": nIds, "steps": descs})
+	w.Add(term, map[string]any{"history": hi, "scopes": nIds, "legacy": legacy, "steps": descs})
 	w.Count("histories")
 	w.CountN("history_steps", int64(len(steps)))
 	w.CountN("history_steps_accepted", int64(accepted))
@@ -834,9 +1152,13 @@ func TestC09(t *testing.T) {
 	e := c09Setup(t)
 	r := newRand("C09")
 	w := NewCaseWriter("C09", "PV.Corr.C09", "check_all", 40)
-	n := scale(160, 2400)
+	n := scale(320, 2400)
 	for hi := 0; hi < n; hi++ {
-		c09History(e, r, w, hi)
+		legacy := 0
+		if hi%20 == 0 {
+			legacy = 1 + hi/20 // scripted pre-migration start state
+		}
+		c09History(e, r, w, hi, legacy)
 	}
 	w.Flush(t)
 }
